@@ -75,14 +75,10 @@ func RuleCX1(c *Ctx) {
 						continue
 					}
 					var kids []string
-					ast.Inspect(kv.Value, func(n ast.Node) bool {
-						if e, ok := n.(ast.Expr); ok {
-							if tv, ok := dpk.TypesInfo.Types[e]; ok && tv.Value != nil && types.Identical(tv.Type, enumT) {
-								kids = append(kids, types.ExprString(e))
-							}
-						}
-						return true
-					})
+					for _, nm := range enumConstsIn(dpk, enumT, kv.Value, 0) {
+						kids = append(kids, nm)
+					}
+					sort.Strings(kids)
 					if len(kids) > 0 {
 						capable[ktv.Value.ExactString()] = kids
 					}
@@ -230,6 +226,50 @@ func RuleCX1(c *Ctx) {
 	}
 }
 
+
+// enumConstsIn collects the constants of the enumeration mentioned in e; an identifier
+// (also as `x...`) that names a package-level variable initialised with a composite literal
+// stands for the constants in that literal.
+func enumConstsIn(pk *pkgT, enumT types.Type, e ast.Node, depth int) map[string]string {
+	out := map[string]string{}
+	info := pk.TypesInfo
+	ast.Inspect(e, func(n ast.Node) bool {
+		x, ok := n.(ast.Expr)
+		if !ok {
+			return true
+		}
+		if tv, ok := info.Types[x]; ok && tv.Value != nil && types.Identical(tv.Type, enumT) {
+			out[tv.Value.ExactString()] = types.ExprString(x)
+			return false
+		}
+		if id, ok := x.(*ast.Ident); ok && depth < 2 {
+			if v, ok := info.ObjectOf(id).(*types.Var); ok && v.Parent() == pk.Types.Scope() {
+				for _, file := range pk.Syntax {
+					for _, decl := range file.Decls {
+						gd, ok := decl.(*ast.GenDecl)
+						if !ok || gd.Tok != token.VAR {
+							continue
+						}
+						for _, sp := range gd.Specs {
+							vs, ok := sp.(*ast.ValueSpec)
+							if !ok || len(vs.Names) != 1 || len(vs.Values) != 1 || info.ObjectOf(vs.Names[0]) != types.Object(v) {
+								continue
+							}
+							if cl, ok := ast.Unparen(vs.Values[0]).(*ast.CompositeLit); ok {
+								for k, nm := range enumConstsIn(pk, enumT, cl, depth+1) {
+									out[k] = nm
+								}
+							}
+						}
+					}
+				}
+			}
+		}
+		return true
+	})
+	return out
+}
+
 type tri int
 
 const (
@@ -369,6 +409,33 @@ func (ev *kindEval) predCall(pk *pkgT, env *kindEnv, call *ast.CallExpr, depth i
 	if len(bound) == 0 {
 		return triUnknown
 	}
+	return ev.runPred(gpk, gd, bound, depth)
+}
+
+// evalPredFor: the answer of a one-operand boolean predicate of the enumeration (method or
+// function) for the kind k.
+func (ev *kindEval) evalPredFor(gd *ast.FuncDecl, k constant.Value) tri {
+	gpk := ev.c.P.PkgOfDecl(gd)
+	bound := map[types.Object]constant.Value{}
+	for _, fl := range []*ast.FieldList{gd.Recv, gd.Type.Params} {
+		if fl == nil {
+			continue
+		}
+		for _, f := range fl.List {
+			for _, nm := range f.Names {
+				if types.Identical(gpk.TypesInfo.TypeOf(nm), ev.enumT) {
+					bound[gpk.TypesInfo.ObjectOf(nm)] = k
+				}
+			}
+		}
+	}
+	if len(bound) != 1 {
+		return triUnknown
+	}
+	return ev.runPred(gpk, gd, bound, 0)
+}
+
+func (ev *kindEval) runPred(gpk *pkgT, gd *ast.FuncDecl, bound map[types.Object]constant.Value, depth int) tri {
 	inner := &kindEnv{info: gpk.TypesInfo, bools: map[types.Object]tri{}}
 	kindOf := func(e ast.Expr) (constant.Value, bool) {
 		if id, ok := ast.Unparen(e).(*ast.Ident); ok {
@@ -728,14 +795,9 @@ func RuleAT1(c *Ctx) {
 						continue
 					}
 					row := map[string]bool{}
-					ast.Inspect(kv.Value, func(n ast.Node) bool {
-						if e, ok := n.(ast.Expr); ok {
-							if tv, ok := info.Types[e]; ok && tv.Value != nil && types.Identical(tv.Type, enumT) {
-								row[tv.Value.ExactString()] = true
-							}
-						}
-						return true
-					})
+					for k := range enumConstsIn(dpk, enumT, kv.Value, 0) {
+						row[k] = true
+					}
 					rows[ktv.Value.ExactString()] = row
 				}
 			}
@@ -759,8 +821,18 @@ func RuleAT1(c *Ctx) {
 		if fd == nil {
 			continue
 		}
-		set, ok := enumPredTrueSet(info, fd)
-		if !ok || len(set) < 2 {
+		ev := &kindEval{c: c, enumT: enumT, tables: map[*types.Var]map[string]bool{}}
+		set := map[string]bool{}
+		decided := true
+		for _, k := range EnumConsts(dpk, enumT) {
+			switch ev.evalPredFor(fd, k.Val()) {
+			case triTrue:
+				set[k.Val().ExactString()] = true
+			case triUnknown:
+				decided = false
+			}
+		}
+		if !decided || len(set) < 2 {
 			continue
 		}
 		var members []string
